@@ -23,3 +23,36 @@ def popcount(n):
 
 def quick():
     return TIER != "thorough"
+
+
+class Frame:
+    """Frame conditions of native checks: arrays handed to the code under check (or handed out by it earlier) must still hold what
+    they held.  Usage:  fr = Frame(x=x, H=H) ... call ... ; bad = fr.changed(); if bad: return {...}"""
+
+    def __init__(self, **arrays):
+        self.items = []
+        self.watch(**arrays)
+
+    def watch(self, **arrays):
+        for name, a in arrays.items():
+            if isinstance(a, np.ndarray):
+                if a.dtype == object:
+                    for i, e in enumerate(a.flat):
+                        if isinstance(e, np.ndarray):
+                            self.items.append(("%s[%d]" % (name, i), e, e.copy(), e.shape))
+                else:
+                    self.items.append((name, a, a.copy(), a.shape))
+            elif isinstance(a, (list, tuple)):
+                for i, e in enumerate(a):
+                    if isinstance(e, np.ndarray):
+                        self.items.append(("%s[%d]" % (name, i), e, e.copy(), e.shape))
+        return self
+
+    def changed(self):
+        for name, a, snap, shp in self.items:
+            if a.shape != shp:
+                return "%s: shape %s became %s" % (name, shp, a.shape)
+            same = np.array_equal(a, snap) if a.dtype.kind not in "fc" else bool(np.array_equal(a, snap, equal_nan=True))
+            if not same:
+                return "%s was modified" % name
+        return None
